@@ -55,6 +55,8 @@ impl Pending {
 static T0: Mutex<Option<Instant>> = Mutex::new(None);
 static POINTS: Mutex<Vec<(u64, &'static str)>> = Mutex::new(Vec::new()); // (ms since T0, name)
 static PARK: Mutex<(Option<&'static str>, bool, bool)> = Mutex::new((None, false, false)); // (point, parked, released)
+/// park only at the n-th time the armed point is reached (1 = first)
+static PARK_SKIP: AtomicU64 = AtomicU64::new(0);
 static PARKCV: Condvar = Condvar::new();
 static DELAY_US: AtomicU64 = AtomicU64::new(0);
 static DELAY_RNG: AtomicU64 = AtomicU64::new(0x9E3779B9);
@@ -82,7 +84,7 @@ fn install_hooks() {
         // park the thread that reaches the armed point
         {
             let mut g = PARK.lock().unwrap();
-            if g.0 == Some(name) && !g.1 {
+            if g.0 == Some(name) && !g.1 && PARK_SKIP.fetch_update(Ordering::SeqCst, Ordering::SeqCst, |x| if x > 0 { Some(x - 1) } else { None }).is_err() {
                 g.1 = true;
                 PARKCV.notify_all();
                 while !g.2 {
@@ -108,6 +110,11 @@ fn install_hooks() {
 }
 
 fn arm(point: &'static str) {
+    PARK_SKIP.store(0, Ordering::SeqCst);
+    *PARK.lock().unwrap() = (Some(point), false, false);
+}
+fn arm_nth(point: &'static str, n: u64) {
+    PARK_SKIP.store(n.saturating_sub(1), Ordering::SeqCst);
     *PARK.lock().unwrap() = (Some(point), false, false);
 }
 fn wait_parked(timeout: Duration) -> bool {
@@ -613,6 +620,46 @@ fn conc_mode(inputs: &[Value], seed: u64, si: usize, sn: usize, out: &mut TraceO
                 let after = with_watchdog(move || get_res(&h4, b"k3"), Duration::from_secs(5));
                 out.emit(&json!({"ev": "conc", "kind": kind, "parked": parked, "merge_finished_inside_get": merged_inside, "get": got,
                                  "merge": mres, "after": after, "expect": "value3"}));
+                drop(kv);
+            }
+            // The merger is parked at its n-th copy: the keys copied before are already re-pointed to
+            // the output file.  Every key must read its value (a get that has to wait for the shard the
+            // merger holds is fine, it is given 300 ms and then counted as blocked).
+            "forced-get-during-merge" => {
+                let nth = inp["nth"].as_u64().unwrap_or(3);
+                let nkeys = inp["keys"].as_u64().unwrap_or(12) as usize;
+                let vlen = inp["vlen"].as_u64().unwrap_or(10) as usize;
+                let cfg = json!({"concurrency": 2, "max_file_size": inp["max_file"].as_u64().unwrap_or(100),
+                                 "merge": {"thresholds": {"fragmentation": 0.0, "dead_bytes": 0, "small_file": 1_000_000_000u64}}});
+                let kv = make_config(&dir, &cfg).open().expect("open");
+                let h = kv.get_handle();
+                let val = |j: usize| -> Vec<u8> { let mut v = format!("val{j}-").into_bytes(); v.resize(vlen.max(v.len()), b'x'); v };
+                for j in 0..nkeys {
+                    let _ = h.set(Bytes::from(format!("k{j}")), Bytes::from(val(j)));
+                }
+                arm_nth("merge.copied", nth);
+                let h3 = h.clone();
+                let m = std::thread::spawn(move || res_str(std::panic::catch_unwind(std::panic::AssertUnwindSafe(|| h3.verif_merge()))));
+                let parked = wait_parked(Duration::from_secs(3));
+                let mut during = vec![];
+                for j in 0..nkeys {
+                    let (h4, kb) = (h.clone(), format!("k{j}").into_bytes());
+                    let r = with_watchdog(move || get_res(&h4, &kb), Duration::from_millis(300));
+                    let want = String::from_utf8_lossy(&val(j)).to_string();
+                    let want = if want.len() > 64 { format!("big:{}:{}", want.len(), want.as_bytes()[0] as char) } else { want };
+                    during.push(json!({"k": format!("k{j}"), "res": r, "want": want}));
+                }
+                release();
+                let mres = m.join().unwrap_or_else(|_| "panic".into());
+                let mut after = vec![];
+                for j in 0..nkeys {
+                    let (h4, kb) = (h.clone(), format!("k{j}").into_bytes());
+                    let r = with_watchdog(move || get_res(&h4, &kb), Duration::from_secs(5));
+                    let want = String::from_utf8_lossy(&val(j)).to_string();
+                    let want = if want.len() > 64 { format!("big:{}:{}", want.len(), want.as_bytes()[0] as char) } else { want };
+                    after.push(json!({"k": format!("k{j}"), "res": r, "want": want}));
+                }
+                out.emit(&json!({"ev": "conc", "kind": kind, "input": inp, "parked": parked, "merge": mres, "during": during, "after": after}));
                 drop(kv);
             }
             "stress" => {
